@@ -5,7 +5,7 @@ import C31 as base
 
 ID = "C33"
 GEN = ["Colors", "Units", "Operators"]
-THEOREMS = []
+THEOREMS = ["C33_names", "C33_hex", "C33_byte_path", "C33_transparent", "C33_rgb_grid_partial", "C33_hsl_grid_partial", "C33_hwb_grid_partial"]
 COQ_HEADER = ("From Coq Require Import String List NArith ZArith Bool.\n"
               "From RV Require Import Run.C31 Run.C33.\nImport ListNotations.\nLocal Open Scope string_scope.")
 RUN_EXPR = "Run.C33.run"
@@ -94,6 +94,10 @@ def judge(c, io, r):
             "show": expr_of(c) + " -> " + txt, "detail": expr_of(c)}
 
 
-LEVEL_TEXT = ""
-LEVEL_NOTE = ""
+LEVEL_TEXT = ("proof: for every rgba value Display treats as a byte triple, the chosen notation (name / short hex / long hex) denotes exactly "
+              "those bytes in both styles (case analysis; hex digits by sweep; the name table regenerated from rgba.rs against an independent CSS "
+              "table by sweep); decimal rgb()/rgba()/hsl() notations on finite grids; the emitted text of every generated colour is decoded "
+              "by the reference reader inside Coq and compared with the implementation's own rgba value")
+LEVEL_NOTE = ("trusted: Coq kernel+vm_compute, Flocq binary64, gen/gens/Colors.py, harness command `color`, Spec/CssColorRead.v and the transcribed "
+              "CSS colour table; decimal accuracy for arbitrary channels is not proved (grids only)")
 TECHNIQUE = "Coq proof (finite sweeps: hex digits, name table against an independent CSS table, byte grid) + translator + differential correspondence"
